@@ -31,6 +31,10 @@ EXTENDS Integers, Sequences, FiniteSets, TLC, Json, TagRecords
 
 (*   "interrupt_swallowed"     : the molecule loop of the single pipeline catches KeyboardInterrupt,     *)
 (*                               stops writing and falls through to close / sort / index / status ok   *)
+(*   "reheader_error_swallowed": an error inside add_readgroups_to_header is treated as non-fatal: the  *)
+(*                               un-reheadered file is sorted, indexed and reported ok                  *)
+(*   "merge_skips_missing_parts": merge_bams silently drops per-job files that no longer exist          *)
+(*   "index_error_swallowed"   : sort_and_index ignores a failing index step                            *)
 CONSTANTS Mutation,     \* "none" | "sort_no_reraise" | "worker_swallows_ioerror" | "interrupt_swallowed"
           NMol,         \* molecules per pipeline / per job: 0..NMol
           NJobs,        \* jobs of the multiprocess pipeline (job 1 is the `*` job)
@@ -51,6 +55,7 @@ C20Clause(obs) ==
     ELSE IF ~obs.sorted     THEN "Inv_C20_sorted"
     ELSE IF ~obs.indexed    THEN "Inv_C20_indexed"
     ELSE IF ~obs.complete   THEN "Inv_C20_complete"
+    ELSE IF ~obs.reheadered THEN "Inv_C20_reheadered"     \* the re-header step failed (its effect is absent): "fails at any step"
     ELSE "ok"
 
 (* D-level bookkeeping check used only for DIVERGENCE notes: the status writes of one run in the    *)
@@ -124,9 +129,17 @@ LoopEnd       == /\ Step("loop", "close") /\ unsorted.n = Total
                  /\ UNCHANGED <<pipeline, prev, size, unsorted, out, bai, w, planned, collected, tries, crashed, crashAt, crashKind, crashJob, tempLeft>>
 CloseUnsorted == /\ Step("close", "addrg") /\ unsorted' = [unsorted EXCEPT !.st = "closed"]
                  /\ UNCHANGED <<pipeline, prev, size, status, out, bai, w, planned, collected, tries, crashed, crashAt, crashKind, crashJob, tempLeft>>
-AddReadGroups == /\ Step("addrg", "sort") /\ unsorted' = [unsorted EXCEPT !.rg = TRUE]    \* temp file + atomic rename
+AddRGWrite    == /\ Step("addrg", "addrg2")                                   \* re-headered copy written to a temp file
+                 /\ UNCHANGED <<pipeline, prev, size, status, unsorted, out, bai, w, planned, collected, tries, crashed, crashAt, crashKind, crashJob, tempLeft>>
+AddRGRename   == /\ Step("addrg2", "sort") /\ unsorted' = [unsorted EXCEPT !.rg = TRUE]    \* atomic rename over the unsorted file
                  /\ UNCHANGED <<pipeline, prev, size, status, out, bai, w, planned, collected, tries, crashed, crashAt, crashKind, crashJob, tempLeft>>
-SortBegin     == /\ Step("sort", "sorting")            \* what a dying sort leaves behind: a truncated or a short but readable file
+AddRGSwallowed == /\ Mutation = "reheader_error_swallowed" /\ ~crashed /\ pc \in {"addrg", "addrg2"} /\ pc' = "sort"
+                 /\ UNCHANGED <<pipeline, prev, size, status, unsorted, out, bai, w, planned, collected, tries, crashed, crashAt, crashKind, crashJob, tempLeft>>
+LoseUnsorted  == /\ ~crashed /\ pc = "sort" /\ unsorted.st = "closed" /\ crashKind # "vanish"    \* environment: the file vanishes / is emptied
+                 /\ unsorted' = [unsorted EXCEPT !.st = "lost"] /\ crashKind' = "vanish" /\ crashAt' = pc
+                 /\ UNCHANGED <<pipeline, prev, size, pc, status, out, bai, w, planned, collected, tries, crashed, crashJob, tempLeft>>
+SortBegin     == /\ Step("sort", "sorting") /\ unsorted.st = "closed"   \* (a lost input makes every attempt fail: only Crash remains)
+                            \* what a dying sort leaves behind: a truncated or a short but readable file
                  /\ \E left \in {"partial", "short"} : out' = [st |-> left, n |-> 0, sorted |-> TRUE, rg |-> FALSE]
                  /\ UNCHANGED <<pipeline, prev, size, status, unsorted, bai, w, planned, collected, tries, crashed, crashAt, crashKind, crashJob, tempLeft>>
 SortFail      == /\ Step("sorting", "sort") /\ tries < 2 /\ tries' = tries + 1          \* caught, retried elsewhere
@@ -135,8 +148,15 @@ SortGiveUp    == /\ Mutation = "sort_no_reraise" /\ Step("sorting", "index") /\ 
                  /\ UNCHANGED <<pipeline, prev, size, status, unsorted, out, bai, w, planned, collected, tries, crashed, crashAt, crashKind, crashJob, tempLeft>>
 SortEnd       == /\ Step("sorting", "index") /\ out' = [st |-> "complete", n |-> unsorted.n, sorted |-> TRUE, rg |-> unsorted.rg]
                  /\ UNCHANGED <<pipeline, prev, size, status, unsorted, bai, w, planned, collected, tries, crashed, crashAt, crashKind, crashJob, tempLeft>>
-Index         == /\ Step("index", "rmunsorted") /\ bai' = "ok"
+LoseSorted    == /\ ~crashed /\ pc = "index" /\ out.st = "complete" /\ crashKind # "vanish"
+                 /\ out' = [out EXCEPT !.st = "absent"] /\ crashKind' = "vanish" /\ crashAt' = pc
+                 /\ UNCHANGED <<pipeline, prev, size, pc, status, unsorted, bai, w, planned, collected, tries, crashed, crashJob, tempLeft>>
+IndexBegin    == /\ Step("index", "indexing") /\ out.st \in {"short", "complete"} /\ bai' = "partial"
                  /\ UNCHANGED <<pipeline, prev, size, status, unsorted, out, w, planned, collected, tries, crashed, crashAt, crashKind, crashJob, tempLeft>>
+IndexEnd      == /\ Step("indexing", "rmunsorted") /\ bai' = "ok"
+                 /\ UNCHANGED <<pipeline, prev, size, status, unsorted, out, w, planned, collected, tries, crashed, crashAt, crashKind, crashJob, tempLeft>>
+IndexErrorSwallowed == /\ Mutation = "index_error_swallowed" /\ Step("indexing", "rmunsorted")     \* truncated / no index left, run goes on
+                 /\ UNCHANGED <<pipeline, prev, size, status, unsorted, out, bai, w, planned, collected, tries, crashed, crashAt, crashKind, crashJob, tempLeft>>
 RemoveUnsorted == /\ Step("rmunsorted", IF StatusOrder = "impl" THEN "done" ELSE "statusok")
                   /\ unsorted' = [unsorted EXCEPT !.st = "absent"]
                   /\ UNCHANGED <<pipeline, prev, size, status, out, bai, w, planned, collected, tries, crashed, crashAt, crashKind, crashJob, tempLeft>>
@@ -158,7 +178,8 @@ WWrite(j)  == /\ ~crashed /\ pc = "pool" /\ j \in planned /\ w[j].pc = "open" /\
               /\ UNCHANGED <<pipeline, prev, size, pc, status, unsorted, out, bai, planned, collected, tries, crashed, crashAt, crashKind, crashJob, tempLeft>>
 WClose(j)  == w[j].n = size[j] /\ WStep(j, "open", "closed")
 WSwallow(j) == Mutation = "worker_swallows_ioerror" /\ w[j].n < size[j] /\ WStep(j, "open", "closed")   \* rest of the task skipped
-WAddRG(j)  == WStep(j, "closed", "rg")
+WAddRGWrite(j)  == WStep(j, "closed", "rgtmp")
+WAddRG(j)  == WStep(j, "rgtmp", "rg")
 WSort(j)   == WStep(j, "rg", "sorted")
 WIndex(j)  == WStep(j, "sorted", "indexed")
 WRemoveUnsorted(j) == WStep(j, "indexed", "clean")
@@ -169,13 +190,19 @@ Collect    == /\ Step("pool", "header") /\ \A j \in planned : w[j].pc = "ret"
               /\ UNCHANGED <<pipeline, prev, size, status, unsorted, out, bai, w, planned, tries, crashed, crashAt, crashKind, crashJob, tempLeft>>
 HeaderBam  == /\ Step("header", "merge")
               /\ UNCHANGED <<pipeline, prev, size, status, unsorted, out, bai, w, planned, collected, tries, crashed, crashAt, crashKind, crashJob, tempLeft>>
-MergeBegin == /\ Step("merge", "merging")
+LosePart(j) == /\ ~crashed /\ pc = "merge" /\ j \in collected /\ w[j].pc = "ret" /\ crashKind # "vanish"   \* a per-job file vanishes
+               /\ w' = [w EXCEPT ![j].pc = "lost"] /\ crashKind' = "vanish" /\ crashAt' = pc /\ crashJob' = j
+               /\ UNCHANGED <<pipeline, prev, size, pc, status, unsorted, out, bai, planned, collected, tries, crashed, tempLeft>>
+PartsThere == \A j \in collected : w[j].pc = "ret"
+MergeBegin == /\ Step("merge", "merging") /\ (PartsThere \/ Mutation = "merge_skips_missing_parts")
               /\ \E left \in {"partial", "short"} : out' = [st |-> left, n |-> 0, sorted |-> TRUE, rg |-> FALSE]
               /\ UNCHANGED <<pipeline, prev, size, status, unsorted, bai, w, planned, collected, tries, crashed, crashAt, crashKind, crashJob, tempLeft>>
 MergeEnd   == /\ Step("merging", "indexmerged")
-              /\ out' = [st |-> "complete", n |-> Sum([j \in collected |-> w[j].n]), sorted |-> TRUE, rg |-> TRUE]   \* merge -c keeps the @RG of the parts
+              /\ out' = [st |-> "complete", n |-> Sum([j \in { x \in collected : w[x].pc = "ret" } |-> w[j].n]), sorted |-> TRUE, rg |-> TRUE]   \* merge -c keeps the @RG of the parts
               /\ UNCHANGED <<pipeline, prev, size, status, unsorted, bai, w, planned, collected, tries, crashed, crashAt, crashKind, crashJob, tempLeft>>
-IndexMerged == /\ Step("indexmerged", "rmparts") /\ bai' = "ok"
+IndexMergedBegin == /\ Step("indexmerged", "indexingmerged") /\ bai' = "partial"
+               /\ UNCHANGED <<pipeline, prev, size, status, unsorted, out, w, planned, collected, tries, crashed, crashAt, crashKind, crashJob, tempLeft>>
+IndexMerged == /\ Step("indexingmerged", "rmparts") /\ bai' = "ok"
                /\ UNCHANGED <<pipeline, prev, size, status, unsorted, out, w, planned, collected, tries, crashed, crashAt, crashKind, crashJob, tempLeft>>
 RemoveParts == /\ Step("rmparts", "rmtemp")
                /\ UNCHANGED <<pipeline, prev, size, status, unsorted, out, bai, w, planned, collected, tries, crashed, crashAt, crashKind, crashJob, tempLeft>>
@@ -195,7 +222,7 @@ Caught(kind) == kind \in {"exception", "ioerror"}
 Crash(kind) ==
     /\ ~crashed /\ pc # "done"
     /\ crashed' = TRUE
-    /\ IF crashJob > 0 THEN UNCHANGED <<crashAt, crashKind, crashJob>>     \* the hung parent of a killed worker is killed
+    /\ IF crashJob > 0 \/ crashKind = "vanish" THEN UNCHANGED <<crashAt, crashKind, crashJob>>     \* the hung parent of a killed worker is killed
        ELSE crashAt' = pc /\ crashKind' = kind /\ crashJob' = 0
     /\ status' = IF Caught(kind) /\ pipeline = "single" /\ pc = "loop" THEN "fail" ELSE status
     /\ UNCHANGED <<pipeline, prev, size, pc, unsorted, out, bai, w, planned, collected, tries, tempLeft>>
@@ -209,10 +236,10 @@ WorkerCrash(j, kind) ==
        ELSE w' = [w EXCEPT ![j].pc = "dead"] /\ crashAt' = "worker:" \o w[j].pc /\ crashJob' = j /\ crashKind' = kind /\ Same(crashed)
     /\ UNCHANGED <<pipeline, prev, size, pc, status, unsorted, out, bai, planned, collected, tries, tempLeft>>
 
-SingleNext == OpenUnsorted \/ WriteMolecule \/ LoopInterruptSwallowed \/ LoopEnd \/ CloseUnsorted \/ AddReadGroups \/ SortBegin \/ SortFail \/ SortGiveUp \/ SortEnd
-              \/ Index \/ RemoveUnsorted
-WorkerNext == \E j \in Jobs : WOpen(j) \/ WWrite(j) \/ WClose(j) \/ WSwallow(j) \/ WAddRG(j) \/ WSort(j) \/ WIndex(j) \/ WRemoveUnsorted(j) \/ WReturn(j)
-MultiNext  == Plan \/ Collect \/ HeaderBam \/ MergeBegin \/ MergeEnd \/ IndexMerged \/ RemoveParts \/ RemoveTemp \/ RemoveTempFails
+SingleNext == OpenUnsorted \/ WriteMolecule \/ LoopInterruptSwallowed \/ LoopEnd \/ CloseUnsorted \/ AddRGWrite \/ AddRGRename \/ AddRGSwallowed \/ LoseUnsorted \/ SortBegin \/ SortFail \/ SortGiveUp \/ SortEnd
+              \/ LoseSorted \/ IndexBegin \/ IndexEnd \/ IndexErrorSwallowed \/ RemoveUnsorted
+WorkerNext == \E j \in Jobs : WOpen(j) \/ WWrite(j) \/ WClose(j) \/ WSwallow(j) \/ WAddRGWrite(j) \/ WAddRG(j) \/ WSort(j) \/ WIndex(j) \/ WRemoveUnsorted(j) \/ WReturn(j)
+MultiNext  == Plan \/ Collect \/ HeaderBam \/ (\E j \in Jobs : LosePart(j)) \/ MergeBegin \/ MergeEnd \/ IndexMergedBegin \/ IndexMerged \/ RemoveParts \/ RemoveTemp \/ RemoveTempFails
 AnyCrash       == \E kind \in Kinds : Crash(kind)
 AnyWorkerCrash == \E j \in Jobs, kind \in Kinds : WorkerCrash(j, kind)
 Next == StatusUnfinished \/ VerifyInput \/ RemoveOld \/ OpenInput \/ SingleNext \/ WorkerNext \/ MultiNext \/ StatusOk
@@ -224,7 +251,7 @@ Spec == Init /\ [][Next]_vars
 Obs == [status |-> status,
         interrupted |-> crashed /\ crashAt # "start",
         exists |-> out.st # "absent", readable |-> out.st \in {"short", "complete"}, sorted |-> out.sorted,
-        indexed |-> bai = "ok", complete |-> out.st = "complete" /\ out.n = Total]
+        indexed |-> bai = "ok", complete |-> out.st = "complete" /\ out.n = Total, reheadered |-> out.rg]
 Inv_C20 == C20Clause(Obs) = "ok"
 (* the remaining half of C05: a run that finished left a sorted, indexed, re-headered output *)
 Inv_C05_Finished == pc = "done" => out.st = "complete" /\ out.sorted /\ out.rg /\ bai = "ok"
@@ -233,7 +260,7 @@ Inv_Type == /\ status \in {"none", "unfinished", "fail", "ok"}
             /\ status = "fail" => crashed
 
 (* scenario generation (rule 13): every crash point of the design model *)
-Emit == IF crashed \/ (\E j \in Jobs : w[j].pc = "dead") \/ pc = "done"
+Emit == IF crashed \/ (\E j \in Jobs : w[j].pc = "dead") \/ pc = "done" \/ crashKind = "vanish"
         THEN PrintT("@@SCENARIO " \o ToJson([pipeline |-> pipeline, size |-> size, prev |-> prev,
                                              at |-> IF pc = "done" /\ ~crashed THEN "done" ELSE crashAt,
                                              kind |-> IF pc = "done" /\ ~crashed THEN (IF tempLeft THEN "rmtree_fails" ELSE "none") ELSE crashKind,
